@@ -10,7 +10,7 @@ NOTES = ("Technique family: static analysis only. Every check parses /repo's cur
          "never imports or executes repository code. Exit 0 = all obligations discharged (known findings listed), "
          "exit 1 + VIOLATION line = a rule instance fails at a named construct, exit 2 + ANALYSIS-ERROR = the analyser "
          "lost an anchor / its self-test failed (never a verdict). VERIF_REPO selects the analysed tree (used by the "
-         "self-test on scratch variants). See DESIGN.md.")
+         "self-test on scratch variants). The thorough tier adds the both-ways self-test: seeded fire variants, benign twins and eight behaviour-preserving whole-tree transformations (reformat, rename-locals, extract-temps, invert-if, flip-compare, drop-else, insert-noop, all) on which every check must stay silent. See DESIGN.md (sections 7 and 8).")
 
 CHECKS = {}
 NOT_APPLICABLE = []
@@ -23,7 +23,7 @@ CHECKS["C03"] = {
              "TM/TAA coherence: each store to one representation is followed on every path to a normal exit by the "
              "sync that reads it (no stale side, no lost write), the sync functions derive one side only from the "
              "other, and nothing outside class tm writes the payload. A necessary condition of the property; the "
-             "numerical inverse-ness of exp/log to 5e-6 is not decided here (see C01/C02)."),
+             "numerical inverse-ness of exp/log to 5e-6 is not decided here (see C01/C02). Also (R03.4): every port primitive the sync functions reach has the reference's normal form."),
     "note": ("Trusted: NumPy view/copy semantics table (sa/engine/alias.py); objects enter public methods coherent "
              "(proved inductively by the same rule); exceptional exits on invalid inputs are out of scope."),
 }
@@ -52,7 +52,7 @@ CHECKS["C12"] = {
              "transposed dual with the frame recorded on exactly the paths that rewrite the payload and the default old "
              "frame read first; force-at-a-point wrenches are [p x f ; f]; mixed-frame arithmetic converts a copy of the "
              "right operand into the left operand's frame. The numerical identities (A->B->C = A->C to 1e-8) then rest "
-             "on the SE(3) algebra decided under C01/C04 and are not themselves decided."),
+             "on the SE(3) algebra decided under C01/C04 and are not themselves decided. Also (R12.5): closure obligations on the primitives under changeFrame; identity-element branches (x + 0, x * 1) are recognised as value-preserving."),
     "note": "Trusted: globalToLocal(a,b)=inv(a)*b and adjoint() (decided under C01/C04); NumPy broadcasting semantics.",
 }
 
@@ -66,7 +66,7 @@ CHECKS["C16"] = {
              "parent's distance established inside [min, max] for the current sample (no stale distance), strict-improvement "
              "choose-parent storing the compared cost, only the not-yet-inserted node is ever wired (acyclic by "
              "construction), path extraction by parent walk + goal, and a non-zero divisor in the progress display for "
-             "every budget >= 1. Numerical distances and the R-tree's nearest-neighbour answers are not decided."),
+             "every budget >= 1. Numerical distances and the R-tree's nearest-neighbour answers are not decided. Also: R16.5 strict improvement is decided on must-hold facts at the re-parenting cost store (guard clauses understood); R16.8 the choose-parent scan visits every neighbour the query returned (no break/return, full range)."),
     "note": "Trusted: purity of caller-supplied callbacks; rtree nearest() (library).",
 }
 
@@ -125,7 +125,7 @@ CHECKS["C17"] = {
              "it indexes for every value of the loop counters (affine ranges, exact unrolling of constant-trip loops), and "
              "at every kernel call site of the Python layers the extents made explicit by argument slices agree with the "
              "contract's equalities (this is what finds an i-column view passed with i+1 joint values). 'Compiled equals "
-             "interpreted' is not decided (Numba code generation is the trusted base)."),
+             "interpreted' is not decided (Numba code generation is the trusted base). R17.2 is path-sensitive: a shape environment follows named slices to the kernel call."),
     "note": "Trusted: shape contracts in sa/engine/mrspec.py (docstrings); Numba code generation; callers not analysed pass arrays that satisfy the contracts.",
 }
 
@@ -140,7 +140,7 @@ CHECKS["C05"] = {
              "FKinSpace(home, space screws, clamped theta) storing joints and pose from one vector; None-defaulted joint "
              "arguments are resolved before use; move() re-initialises from the stored original screws and local home; no state "
              "pose object is mutated through an alias; NumPy attributes used exist (an Arm can be built). Equality with the "
-             "product of exponentials to 1e-7 is not decided here (kernel: C02)."),
+             "product of exponentials to 1e-7 is not decided here (kernel: C02). Also: R05.7 the backup used by restoreOriginalEE is refreshed whenever the home tool pose is rewritten for a new base; R05.8 closure obligations on the port primitives FK reaches; the clamp of thetaProtector is decided structurally (each out-of-range side replaced by the bound it violates, guard admits every clamp)."),
     "note": "Trusted: FKinSpace (C02); parameters documented as transforms are transforms; num_dof >= 1.",
 }
 
@@ -153,7 +153,7 @@ CHECKS["C06"] = {
              "of all public methods (so a tool change or move can never leave a self-consistent Jacobian of another model); "
              "each variant pairs the right screw list with the right kernel and change of frame; the four statics methods form "
              "the (space|body)x(forward|inverse) table with J^T and pinv(J^T); link-mass statics adds exactly one weight per "
-             "link with one index for cg/mass/pose/prefix Jacobian. Derivative-of-FK equalities are not decided."),
+             "link with one index for cg/mass/pose/prefix Jacobian. Derivative-of-FK equalities are not decided. Also (R06.5): the Jacobian primitives reached from the arm have the reference's normal form."),
     "note": "Trusted: JacobianSpace/JacobianBody/Adjoint (C01/C02). The length contract of _link_masses (n+1, index 0 = base link, as the URDF loader produces) is an input contract, not checked.",
 }
 
@@ -168,7 +168,7 @@ CHECKS["C07"] = {
              "with screws/home/goal/limits bound by role); the clamp block covers every joint with both bounds between update "
              "and error recomputation; IK/constrainedIK can return success only after FK(returned joints) wrote the state and "
              "leave the state coherent on every exit; the limit-respecting kernel minus its clamp equals IKinSpace (which equals "
-             "the reference). Local convergence and 'unreachable => error above tolerance' are numerical and not decided."),
+             "the reference). Local convergence and 'unreachable => error above tolerance' are numerical and not decided. Also: R07.6 (effects summary) no IK kernel writes the storage of the start vector it is given, so a failed solve cannot move the arm's stored joints; R07.7 closure obligations on the primitives the solvers reach."),
     "note": "Trusted: FKinSpace/JacobianSpace/MatrixLog6/Adjoint (C01/C02); documented parameter roles.",
 }
 
@@ -183,7 +183,7 @@ CHECKS["C08"] = {
              "Arm.massMatrix is literally a sum of congruences J_i^T G_i J_i (symmetric PSD by construction); the arm-level "
              "wrappers call the kernels with arguments in role order, 1-D tip loads and matching return arity. Symmetry / "
              "definiteness as numbers, FD o ID = id, energy conservation and agreement of Arm.inverseDynamics/inverseDynamicsC "
-             "with the recursion are numerical identities and are NOT decided."),
+             "with the recursion are numerical identities and are NOT decided. Also (R08.4): dependence conformance inside Arm.inverseDynamics - the base step carries (0,0,0,-g) through an operator that reads the same model inputs (joint value, screw, link frames) as the general step's propagation operator."),
     "note": "Trusted: modern_robotics 1.1.1 recursion as the physics reference; rewrite set N1..N16.",
 }
 
@@ -212,7 +212,7 @@ CHECKS["C18"] = {
              "(log of a rotation, never of a scaled rotation); IKPath has steps poses, evenly spaced, ending at the goal; "
              "gap closing advances by delta along the unit direction; the midpoint is mean position + exp(log(R2 R1^T)/2)R1; "
              "sphere samplers satisfy x^2+y^2+z^2 = 1 identically; chainJacobian follows the JacobianSpace recurrence; lookAt "
-             "builds a right-handed frame. Geodesic/metric relations as numbers and the optimiser-based helper are not decided."),
+             "builds a right-handed frame. Geodesic/metric relations as numbers and the optimiser-based helper are not decided. Helper formulas (IKPath, closeLinearGap, midpoint, lookAt, chainJacobian, tripleUnit) are decided by normal-form equality with reference implementations written from the definitions; R18.7 closure obligations."),
     "note": "Trusted: exp/log primitives (C01); NumPy element-wise semantics.",
 }
 
@@ -226,7 +226,7 @@ CHECKS["C04"] = {
              "flag forwarded; `@`/reflected `@` multiply the 4x4 matrices in operand order and the other dunders apply their own "
              "operator; inv() is TransInv; the quaternion getter/setter use one convention on one block and re-sync; "
              "LocalToGlobal/GlobalToLocal are literally ref*rel and inv(ref)*rel in rotation-vector form and the wrappers pass "
-             "(reference, rel) in order. Associativity, inverse laws and cross-form equality to 5e-6 are numerical and not decided."),
+             "(reference, rel) in order. Associativity, inverse laws and cross-form equality to 5e-6 are numerical and not decided. Also (R04.5): every compiled primitive reachable from the constructor sync, inv and the frame-conversion helpers has the normal form of the pinned reference (closure obligations), so a defect in exp/log breaks this property's check too."),
     "note": "Trusted: exp/log/TransInv (C01/C02); scipy Rotation default quaternion convention.",
 }
 
@@ -239,7 +239,7 @@ CHECKS["C20"] = {
              "produced and appended per index of range(shape[0]) on every path, with width nd+6, precision nd below 9999 and nd "
              "forwarded through the <=4-D recursion; the dims dispatch is exhaustive; probes that raise on 0-d / shapeless "
              "objects sit inside the catch-all fallback; round() is only reached for finite |x| >= 9999. Exception freedom for "
-             "arbitrary Python objects (dynamic __str__/__format__) is NOT decided."),
+             "arbitrary Python objects (dynamic __str__/__format__) is NOT decided. The formatted value must be the array element itself on every path (alias-aware); locals are identified by role."),
     "note": "Trusted: Python string formatting of finite floats; the stated input kinds.",
 }
 
@@ -254,7 +254,7 @@ CHECKS["C13"] = {
              "the running index which then advances by one, while links/fixed joints contribute none and fixed joints are folded "
              "into the running pose; screws are [axis; point x axis] with the axis rotated by the accumulated pose; the arm is "
              "built at the identity base with the last accumulated pose as tool home. FK equality with the file's semantics to "
-             "1e-6 is numerical and not decided."),
+             "1e-6 is numerical and not decided. The pose bookkeeping of the chain walk is decided by a symbolic pose walk (products of origins on every path of one iteration, with an inferred loop invariant); locals are identified by role, not by name."),
     "note": "Trusted: ElementTree parsing; tm composition (C04); the chain is strictly serial (as the property states).",
 }
 
@@ -268,7 +268,7 @@ CHECKS["C09"] = {
              "poses, local joint tables and buffers by role; the FK joint tables are re-derived whenever the plate-fixed joints are "
              "replaced (re-spun platforms solve FK for their own geometry); FK/IK/move/spinCustom end with derived state computed "
              "from exactly the stored poses, so lengths reported after FK are recomputed geometry. Convergence of the solvers to "
-             "1e-3 is numerical and not decided."),
+             "1e-3 is numerical and not decided. R09.2 discovers class-wide every instance field that caches a function of the plate-fixed joint tables (by data dependence) and requires every writer of the tables to refresh or reset each of them on every path; kernel formulas are decided by normal-form equality with a reference implementation written from the definition."),
     "note": "Trusted: SPFKinSpaceR's Newton iteration (not analysed numerically); tokens name one pose value per path.",
 }
 
